@@ -56,7 +56,7 @@ LitCases ==
   {[prog |-> <<Out(Lit(v))>>, data |-> EmptyMap, fam |-> "lit"] :
       v \in {IntV(n) : n \in (0 - 12)..12} \cup {IntV(99999), IntV(0 - 99999), BoolV(TRUE), BoolV(FALSE), NilV} \cup
             {FloatV(n, d) : n \in (0 - 9)..9, d \in {1, 2, 4, 8}} \cup
-            {StrV(s) : s \in {"", " ", "abc", "a b", "it's", "say \"hi\"", "{{", "%}", "a|b", "x:y,z"}}}
+            {StrV(s) : s \in {"", " ", "abc", "a b", "it's", "say \"hi\"", "{{", "%}", "a|b", "x:y,z", "'q'", "\"q\"", "'", "\"", "a'", "\"a", "'a", "a\""}}}
 
 \* integer literals as text: what they must print as (canonical decimal), in range
 Strip0(s) == LET RECURSIVE F(_)
